@@ -32,7 +32,10 @@ RULE = ("(history) Hypothesis draws a pool of operators (positive-definite / inv
         "suite: the verdict must not depend on the order. Non-trivial: a history with >= 2 distinct step kinds touching the "
         "same object; a flatten case with >= 2 leaves; an order different from the default."
         " Further: steps inv_left (X @ inv(A) on caller-owned C-ordered arrays), inv_T, rmatmat, to_dtype; the dense"
-        " form of every pool operator keeps its dtype.")
+        " form of every pool operator keeps its dtype."
+        " Round 5: c * leaf has leaves(leaf) + 1 leaves; the default algorithm objects of the public functions are"
+        " unchanged after every step; eigmax with the algorithm omitted; cg with a zero column and a non-zero guess;"
+        " composites of array-free parts in the pool.")
 ASSUMPTIONS = [
     "exceptions raised by a step are not judged here (other properties do); only mutation, repeatability and the flatten contract are",
     ".to(device) is exercised with the only NumPy device (None); .to(dtype=...) is documented as unsupported and outside the alphabet",
@@ -116,6 +119,14 @@ def history_cases(draw, tier):
     trees = [g.t_pd(n, g.pick([0, 1, 2])), g.pick([g.t_inv, g.t_pd, g.t_herm])(n, g.pick([0, 1, 2]))]
     if g.boolean():
         trees.append(g.op(n, n, g.pick([0, 1, 2])))
+    if g.integer(1, 4) == 1 and n >= 2:
+        # a composite all of whose parts are array-free (its flattened form holds them as static data)
+        dt = g.pick(["f8", "f8", "c16"])
+        a = [d for d in range(1, n + 1) if n % d == 0][g.integer(0, len([d for d in range(1, n + 1) if n % d == 0]) - 1)]
+        eye = lambda m: {"k": "eye", "n": m, "dt": dt}  # noqa: E731
+        trees.append(g.pick([lambda: {"k": "kron", "via": "ctor", "ch": [eye(a), eye(n // a)]},
+                             lambda: {"k": "bd", "ch": [eye(1)], "mult": [n]},
+                             lambda: {"k": "sum", "via": "op", "ch": [{"k": "kron", "via": "fn", "ch": [eye(a), eye(n // a)]}, g.t_pd(n, 0)]}])())
     nsteps = g.integer(2, 10 if tier == "thorough" else 7)
     steps = []
     for t in range(nsteps):
@@ -128,6 +139,14 @@ def flatten_cases(draw, tier):
     g = gen.TreeGen(draw, avoid=(AVOID - {"dup_index"}) | {"share"})  # (one object as two children: its array is two leaves; exercised by C01/C03/C08)
     r, c = TP.target_shape(g, maxn=6)
     tree = g.op(r, c, g.pick([0, 0, 1, 1, 2, 3]))
+    if g.integer(1, 5) == 1:
+        # a scalar multiple of a plain leaf, the scalar being a NumPy scalar / 0-d array / Python number of the leaf's own dtype
+        dt = g.pick(["f8", "f4", "c16"])
+        leaf = g.pick([lambda: {"k": "dense", "a": gen.enc(g.array((r, c), dt))}, lambda: {"k": "diag", "d": gen.enc(g.array((r, ), dt))}])()
+        sc = {"t": g.pick([dt, "a0" + dt, "float", "int"]), "v": [2, 1] if dt == "c16" and g.boolean() else 2.5}
+        if isinstance(sc["v"], list) and sc["t"] in ("float", "int"):
+            sc["v"] = 2
+        tree = {"k": g.pick(["scale", "scale", "div"]), "c": sc, "side": g.pick("lr"), "ch": [leaf]}
     return {"mode": "flatten", "tree": tree, "leaf": g.integer(0, 50)}
 
 
@@ -167,8 +186,11 @@ class Ctx:
             return np.array([int(p) - n if rng.random() < 0.5 else int(p) for p in pos], dtype=np.int64)
 
         self.idx, self.idx2 = index_array(), index_array()
+        self.Bz = self.B.copy()
+        self.Bz[:, -1] = 0  # a right-hand side with a zero column ...
+        self.X0 = rng.integers(1, 4, size=(n, 2)).astype(self.B.dtype)  # ... and a non-zero guess for every column
         self.BL = np.ascontiguousarray(rng.integers(-3, 4, size=(2, n)).astype(np.complex128 if cplx else np.float64))  # left operand, C order
-        self.arrays = {"b": self.b, "B": self.B, "x0": self.x0, "v": self.v, "idx": self.idx, "idx2": self.idx2, "BL": self.BL}
+        self.arrays = {"b": self.b, "B": self.B, "x0": self.x0, "v": self.v, "idx": self.idx, "idx2": self.idx2, "BL": self.BL, "Bz": self.Bz, "X0": self.X0}
         self.n_base = len(self.ops)
 
     def alg(self, name):
@@ -268,6 +290,8 @@ class Ctx:
             return plu(A)
         if name == "cg":
             from cola.linalg.inverse.cg import cg
+            if s.get("i", 0) % 2:
+                return cg(A, self.Bz, x0=self.X0, tol=1e-8, max_iters=40)[0]
             return cg(A, b, x0=self.x0, tol=1e-8, max_iters=40)[0]
         if name == "gmres":
             from cola.linalg.inverse.gmres import gmres
